@@ -64,6 +64,10 @@ def problem(draw, entry):
         return dict(fam="cone", prob=p, spG=draw(st.booleans()), kkt=draw(st.sampled_from([None, None, "ldl", "chol"])),
                     start=draw(st.sampled_from(["none", "none", "both"])))
     if entry in ("coneqp", "qp"):
+        if draw(st.integers(0, 4)) == 0:
+            # no inequality constraints: coneqp/qp solve one KKT system directly (G, h given as empty matrices)
+            p = draw(gc.cone_case(kind="feas", dims={"l": 0, "q": [], "s": []}, qp=True, max_n=3))
+            return dict(fam="qp", prob=p, sp=draw(st.booleans()), init=False)
         p = draw(gc.cone_case(kind="feas", kinds="lqs" if entry == "coneqp" else "l", qp=True, max_n=3))
         return dict(fam="qp", prob=p, sp=draw(st.booleans()), init=draw(st.booleans()))
     if entry in ("cpl", "cp", "gp"):
